@@ -1,5 +1,6 @@
 import numpy as np
 import scipy.linalg
+import scipy.special
 import opt_einsum
 import torch
 
@@ -98,8 +99,9 @@ def get_eof_2qubit(rho:np.ndarray):
     if tmp0==0:
         ret = 0
     else:
-        tmp1 = (1 + np.sqrt(1-tmp0*tmp0))/2
-        ret = -tmp1*np.log(tmp1) - (1-tmp1)*np.log(1-tmp1)
+        tmp1 = (1 + np.sqrt(np.maximum(0, 1-tmp0*tmp0)))/2
+        # entr(x)=-x*log(x) with entr(0)=0, avoid 0*log(0)=nan when the concurrence is tiny
+        ret = scipy.special.entr(tmp1) + scipy.special.entr(1-tmp1)
     return ret
 
 
